@@ -68,6 +68,8 @@ func run() (code int) {
 		return debugDump("/repo", os.Args[2:])
 	case "fsx":
 		return debugFsx("/repo")
+	case "mutant":
+		return runMutant(os.Args[2:])
 	case "check":
 	default:
 		fmt.Fprintln(os.Stderr, "unknown command", os.Args[1])
@@ -93,10 +95,15 @@ func run() (code int) {
 		fmt.Printf("ERROR no check registered for %s\n", id)
 		return 2
 	}
+	return runCheck(p, *tier, *repo, *verif, seed)
+}
+
+func runCheck(p *propCheck, tier, repo, verif string, seed int) (code int) {
+	id := p.id
 	start := time.Now()
-	c := newCtx(id, *tier)
+	c := newCtx(id, tier)
 	c.Explain = p.explain
-	verifDir = *verif
+	verifDir = verif
 
 	// A panic in the checker is a failed check, never a pass.
 	defer func() {
@@ -107,12 +114,12 @@ func run() (code int) {
 	}()
 
 	configs := quickConfigs()
-	if *tier == "thorough" {
+	if tier == "thorough" {
 		configs = thoroughConfigs()
 	}
 	var cfgNames []string
 	for _, bc := range configs {
-		w, err := LoadRepo(*repo, bc)
+		w, err := LoadRepo(repo, bc)
 		if err != nil {
 			fmt.Printf("ERROR %v\n", err)
 			return 2
@@ -133,10 +140,14 @@ func run() (code int) {
 		}
 		c.W = nil
 	}
-	return c.finish(*verif, start, seed, cfgNames)
+	lastCtx = c
+	return c.finish(verif, start, seed, cfgNames)
 }
 
 var verifDir = "/verif"
+
+// lastCtx is the context of the most recent check (read by the mutant self-test).
+var lastCtx *Ctx
 
 func isFlagSet(fs *flag.FlagSet, name string) bool {
 	set := false
